@@ -31,6 +31,12 @@ def _strategy():
                 tx["signed"] = draw(st.booleans())
                 tx["raw"] = draw(st.booleans())
             txs.append(tx)
+        tx_pair = draw(st.sampled_from([[0.0, 0.0], [0.0, 0.0], [0.0015, 0.0], [0.003, 0.0], [0.0005, 0.0], [0.0, 0.0015], [0.0, 0.003]]))
+        if tx_pair[1] > 0:
+            # server-side write times only with operations at least 20 ms apart: the facade re-subscribes its listener when
+            # respond() has returned, i.e. after the server's last write (documented limit, DESIGN.md 8)
+            for tx in txs:
+                tx["gap_after"] = max(tx["gap_after"], 0.02)
         return {"size": size, "count": count, "seed_key": seed_key,
                 "seeds": draw(st.lists(st.one_of(st.sampled_from([0x0000, 0xFFFF, 1, 0x00FF, 0xFF00, 0xFFFE, 0x8000]), st.integers(0, 0xFFFF)), min_size=1, max_size=3)),
                 "addr": draw(st.one_of(st.sampled_from([0, 1, 0x92000003, 0xFFFFFFFF, 0x80000000]), st.integers(0, 0xFFFFFFFF))),
@@ -40,9 +46,7 @@ def _strategy():
                         "S": draw(st.lists(st.sampled_from(simbus.LATENCY_GRID[1:]), min_size=1, max_size=2))},
                 "use_proceed": True,
                 "sas": draw(st.sampled_from([[0xF9, 0xD4, 0xA7], [0xF9, 0xD4, 0xA7], [0x00, 0xD4, 0xA7], [0x01, 0x00, 0xFD], [0xFD, 0x80, 0x00], [0x7F, 0xFD, 0x01]])),
-                # (server-side write times are not generated: the server's DM14 code updates its state after several of its writes;
-                # two such defects were repaired - D40 (client), D41 (server, write data) - the rest is a documented limit, DESIGN.md 8)
-                "tx": draw(st.sampled_from([[0.0, 0.0], [0.0, 0.0], [0.0015, 0.0], [0.003, 0.0], [0.0005, 0.0]])),
+                "tx": tx_pair,
                 "respond_delay": draw(st.sampled_from([0.0, 0.0, 0.001, 0.02])),
                 "txs": txs}
     return build()
